@@ -7,8 +7,8 @@
     when it started, the verification result, and the moment main() starts to
     transmit the message.  [spec_ok_C18] walks over the events once:
 
-    * a handshake is only started on a connection still in clear, with an empty
-      buffer ([pending = 0]);
+    * a handshake is only started on a connection still in clear (what the line
+      buffer holds at that moment is recorded but must never be used, see next item);
     * after a successful handshake everything is read and written through TLS;
       every line read is exactly the next CRLF-terminated piece of what the TLS
       session delivered (by position: [left] counts what is unconsumed);
@@ -35,7 +35,7 @@ Record cst := mkC {
   x_acc : N             (* extension bits offered by lines received inside TLS *)
 }.
 
-Definition no_conn : conn := mkConn false false false false [] 0 0 [] [] [].
+Definition no_conn : conn := mkConn false false false [] 0 0 [] [] [].
 Definition conn_of (k : tcase) (i : nat) : conn := nth i (k_conns k) no_conn.
 Definition tls_stream (c : conn) : bytes := concat (c_tls c).
 
@@ -83,9 +83,7 @@ Definition step (tf : conn -> list (N * Z)) (k : tcase) (c : cst) (e : ev) : opt
       end
   | EvHs pending h =>
       match x_ph c with
-      | PClear =>
-          if negb (Nat.eqb pending 0) then None
-          else Some (mkC (x_k c) (if N.eqb h 0 then PTls (length (tls_stream cn)) else PFailed) false 0)
+      | PClear => Some (mkC (x_k c) (if N.eqb h 0 then PTls (length (tls_stream cn)) else PFailed) false 0)
       | _ => None
       end
   | EvVfy v =>
@@ -147,7 +145,7 @@ Fixpoint last_conn_acc (o : option nat) (tr : list ev) : option nat :=
 (** the MX the client is connected to at the end of [tr] *)
 Definition last_conn (tr : list ev) : option nat := last_conn_acc None tr.
 
-Definition hs_done (l : list ev) : Prop := exists p, In (EvHs p 0) l.
+Definition hs_done (l : list ev) : Prop := exists p, In (EvHs p 0%N) l.
 Definition hs_failed (l : list ev) : Prop := exists p h, h <> 0%N /\ In (EvHs p h) l.
 
 (** [l] sits in [stream] in front of a CRLF, with [lft] bytes behind that CRLF *)
@@ -158,9 +156,9 @@ Definition cut_at (stream l : bytes) (lft : nat) : Prop :=
 Definition C18_event_ok (tf : conn -> list (N * Z)) (k : tcase) (pre : list ev) (e : ev) : Prop :=
   let since := since_conn pre in
   match e with
-  | EvHs p _ =>
-      (* the handshake starts with an empty line buffer, once per connection *)
-      p = 0 /\ ~ hs_done since /\ ~ hs_failed since
+  | EvHs _ _ =>
+      (* once per connection *)
+      ~ hs_done since /\ ~ hs_failed since
   | EvR t it lft =>
       (* TLS is used for reading exactly from the successful handshake on, and a line read through
          TLS is a piece of what the TLS session of this connection delivered, at this very position *)
